@@ -520,6 +520,32 @@ def run_history(mode, flags, W, tag):
     return out_dir, obs
 
 
+def run_history_noplace(flags, W, tag):
+    """FitsTiler used directly in TOAST mode with add_place_for_toast=False (the WTML then holds a
+    bare <ImageSet>): the returned builder must still describe what index_rel.wtml says."""
+    from toasty import collection, fits_tiler, TilingMethod
+    from wwt_data_formats import write_xml_doc
+    src = os.path.join(W, "h_TOAST.fits")
+    if not os.path.exists(src):
+        mk_fits(src, 64, 48, 0.3)
+    out_dir = os.path.join(W, f"h_TOASTNP_{tag}")
+    shutil.rmtree(out_dir, ignore_errors=True)
+    obs = []
+    for ov in flags:
+        tiler = fits_tiler.FitsTiler(collection.load(src), out_dir=out_dir, tiling_method=TilingMethod.TOAST,
+                                     add_place_for_toast=False)
+        r = quiet(tiler.tile, parallel=1, override=bool(ov))
+        b = tiler.builder
+        imgset, place = read_wtml(out_dir)
+        buf = io.BytesIO()
+        write_xml_doc(b.create_wtml_folder(add_place_for_toast=False).to_xml(), dest_stream=buf, dest_wants_bytes=True)
+        same_xml = xml_canon(ET.fromstring(buf.getvalue())) == xml_canon(
+            ET.parse(os.path.join(out_dir, "index_rel.wtml")).getroot())
+        obs.append(dict(returned=describe(b.imgset, None), wtml=describe(imgset, None), returns_self=r is tiler,
+                        same_xml=same_xml))
+    return out_dir, obs
+
+
 def g_hist(out_dir, flags, obs):
     name = out_dir.split("/")[-1]
     dl = g_list([f"(mkD {g_desc(o['returned'])} {g_bool(o['returns_self'])} {g_desc(o['wtml'])})" for o in obs])
@@ -624,6 +650,19 @@ def run(ctx, V):
                        dict(call=j, expected="returned Builder.imgset/place == index_rel.wtml; tile() returns self", wtml=o["wtml"]),
                        dict(call=j, returned=o["returned"], tile_returned_self=o["returns_self"], same_xml=o["same_xml"], code=code),
                        bool(fails), finding_key=fk)
+
+    # direct FitsTiler use without the Place wrapper (bare <ImageSet> in the WTML): predicate only
+    for h in all_histories(2):
+        out_dir, obs = run_history_noplace(h, W, "".join(str(f) for f in h))
+        n_calls += len(obs)
+        fails = [j for j, o in enumerate(obs) if not (o["same_xml"] and o["returned"] == o["wtml"] and o["returns_self"])]
+        if fails:
+            o = obs[fails[0]]
+            V.disagreement("C17 predicate: FitsTiler(add_place_for_toast=False) returned builder == index_rel.wtml over histories",
+                           dict(part="history-noplace", mode="TOAST", history=h),
+                           dict(call=fails[0], wtml=o["wtml"]),
+                           dict(call=fails[0], returned=o["returned"], tile_returned_self=o["returns_self"], same_xml=o["same_xml"]),
+                           True)
 
     nontrivial = {(c["scheme"], c["default"], c["explicit"], c["pos"][0]) for c in pcs if c["pos"][0] > 0}
     return dict(
